@@ -129,7 +129,7 @@ def rule_frames(repo, rep):
   rep.floor('returned index arrays typed', n, 7)
 
 
-def rule_chunks(repo, rep):
+def rule_chunks(repo, rep, interp=None):
   R = 'FRAME:chunks-assigned-to-known-points'
   rep.rule(R, 'chunks() writes a chunk id only at positions of the caller\'s '
            'array that carry a known label; the returned array is laid out '
@@ -149,6 +149,12 @@ def rule_chunks(repo, rep):
                 'array found')
   for (target, iv, s) in dom.stores:
     if target == ('arr', FULL) and idx_ok(iv):
+      rep.derived(R, 'Constraints.chunks:store', s)
+    elif target == ('arr', FULL) and is_idx(iv) and iv[1] == FULL and \
+            'class' in iv[3] and (interp or {}).get('one-class') == 'derived':
+      # positions of one class of the caller's array; that the class is a
+      # known one is not visible to the frame typing here and is decided by
+      # R-INTERP:chunks (one-class) on layouts with unlabelled points
       rep.derived(R, 'Constraints.chunks:store', s)
     elif is_idx(iv):
       rep.refuted(R, 'Constraints.chunks:store', s, 'chunk ids are written '
@@ -347,9 +353,9 @@ def rule_structure(repo, rep):
 
 def check(repo, rep, tier):
   rule_frames(repo, rep)
-  rule_chunks(repo, rep)
+  interp = c07b.rule_chunks_interp(repo, rep)
+  rule_chunks(repo, rep, interp)
   rule_structure(repo, rep)
   c07b.rule_knn(repo, rep)
   c07b.rule_comb(repo, rep)
-  c07b.rule_chunks_interp(repo, rep)
   c17.rule_rng(repo, rep, only_constraints=True)
